@@ -1006,46 +1006,27 @@ func ruleR05j(c *Ctx) {
 			n++
 			ord++
 			x := exprKey(ix.X)
-			lenX := "len(" + x + ")"
-			good := false
-			norm := func(t string) string {
-				if b, ok := alias[t]; ok {
-					return b
-				}
-				return t
-			}
-			num := func(t string) (int64, bool) {
-				var m int64
-				if _, err := fmt.Sscanf(t, "%d", &m); err == nil && fmt.Sprint(m) == t {
-					return m, true
-				}
-				return 0, false
-			}
-			for f := range facts {
-				// facts are "a op b" with op in < <= == != (relations are normalised to < and <=)
-				var a, op, b string
-				for _, o := range []string{" <= ", " < ", " == ", " != "} {
-					if i := strings.Index(f, o); i > 0 {
-						a, op, b = norm(f[:i]), strings.TrimSpace(o), norm(f[i+len(o):])
-						break
-					}
-				}
-				switch {
-				case isString && k == 0 && op == "!=" && ((a == x && b == `""`) || (b == x && a == `""`)):
-					good = true
-				case op == "!=" && k == 0 && ((a == lenX && b == "0") || (b == lenX && a == "0")):
-					good = true
-				case b == lenX && (op == "<=" || op == "<"):
-					if m, ok := num(a); ok && ((op == "<=" && m > k) || (op == "<" && m >= k)) {
-						good = true
-					}
-				case op == "==" && (a == lenX || b == lenX):
-					other := b
-					if b == lenX {
-						other = a
-					}
-					if m, ok := num(other); ok && m > k {
-						good = true
+			good := positionKnown(x, isString, k, facts, alias)
+			if !good {
+				// a parameter of an unexported function: the callers establish it
+				if id, ok := ast.Unparen(ix.X).(*ast.Ident); ok {
+					if idx := paramIndex(fd, info.Uses[id], info); idx >= 0 && !fd.Name.IsExported() {
+						sites, all := 0, true
+						for _, cfn := range fns {
+							cfd := pf.funcs[cfn]
+							calias := lenAliases(cfd)
+							guardWalk(cfd.Body, nr.forInfo(info), func(ce ast.Expr, cfacts factSet) {
+								call, ok := ce.(*ast.CallExpr)
+								if !ok || calleeFunc(call, info) != fn || idx >= len(call.Args) {
+									return
+								}
+								sites++
+								if !positionKnown(exprKey(call.Args[idx]), isString, k, cfacts, calias) {
+									all = false
+								}
+							})
+						}
+						good = sites > 0 && all
 					}
 				}
 			}
@@ -1137,4 +1118,80 @@ func ruleR05k(c *Ctx) {
 		})
 	}
 	c.floor("R05k", "functions of parse with a rune parameter", 5, nfun)
+}
+
+func lenAliases(fd *ast.FuncDecl) map[string]string {
+	alias := map[string]string{}
+	ast.Inspect(fd.Body, func(x ast.Node) bool {
+		if as, ok := x.(*ast.AssignStmt); ok && len(as.Lhs) == 1 && len(as.Rhs) == 1 {
+			if call, ok := ast.Unparen(as.Rhs[0]).(*ast.CallExpr); ok {
+				if id, ok := call.Fun.(*ast.Ident); ok && id.Name == "len" && len(call.Args) == 1 {
+					alias[exprKey(as.Lhs[0])] = "len(" + exprKey(call.Args[0]) + ")"
+				}
+			}
+		}
+		return true
+	})
+	return alias
+}
+
+func paramIndex(fd *ast.FuncDecl, obj types.Object, info *types.Info) int {
+	i := 0
+	for _, fl := range fd.Type.Params.List {
+		for _, nm := range fl.Names {
+			if info.Defs[nm] == obj && obj != nil {
+				return i
+			}
+			i++
+		}
+	}
+	return -1
+}
+
+// positionKnown: the facts imply that position k of x exists.
+func positionKnown(x string, isString bool, k int64, facts factSet, alias map[string]string) bool {
+	lenX := "len(" + x + ")"
+	good := false
+	norm := func(t string) string {
+		if b, ok := alias[t]; ok {
+			return b
+		}
+		return t
+	}
+	num := func(t string) (int64, bool) {
+		var m int64
+		if _, err := fmt.Sscanf(t, "%d", &m); err == nil && fmt.Sprint(m) == t {
+			return m, true
+		}
+		return 0, false
+	}
+	for f := range facts {
+		// facts are "a op b" with op in < <= == != (relations are normalised to < and <=)
+		var a, op, b string
+		for _, o := range []string{" <= ", " < ", " == ", " != "} {
+			if i := strings.Index(f, o); i > 0 {
+				a, op, b = norm(f[:i]), strings.TrimSpace(o), norm(f[i+len(o):])
+				break
+			}
+		}
+		switch {
+		case isString && k == 0 && op == "!=" && ((a == x && b == `""`) || (b == x && a == `""`)):
+			good = true
+		case op == "!=" && k == 0 && ((a == lenX && b == "0") || (b == lenX && a == "0")):
+			good = true
+		case b == lenX && (op == "<=" || op == "<"):
+			if m, ok := num(a); ok && ((op == "<=" && m > k) || (op == "<" && m >= k)) {
+				good = true
+			}
+		case op == "==" && (a == lenX || b == lenX):
+			other := b
+			if b == lenX {
+				other = a
+			}
+			if m, ok := num(other); ok && m > k {
+				good = true
+			}
+		}
+	}
+	return good
 }
